@@ -662,7 +662,11 @@ def execute(plan):
                 if now[1][k] != snap0[1][k]:
                     which.append('formula object {} changed'.format(k))
             if now[2] != snap0[2]:
-                which.append('a fairness list changed')
+                # the statement names the structure and the formula, not the
+                # fairness containers: recorded; any consequence for a later
+                # call with the same container is I2's business
+                probe('fairness_container_changed')
+                snap0[2] = now[2]
             if not which:
                 return
             raise Violation(prop + '/I1-arguments-modified',
